@@ -187,10 +187,19 @@ func (w *WAL) Read() ([]types.Entry, error) {
 	var entries []types.Entry
 	reader := bytes.NewReader(buf.Bytes())
 	for reader.Len() > 0 {
+		// a crash can leave a partly written last record (it was never
+		// synced, hence never acknowledged): the log ends before it
+
 		// data length
 		var n int64
 		if err = binary.Read(reader, binary.LittleEndian, &n); err != nil {
+			if errors.Is(err, io.EOF) || errors.Is(err, io.ErrUnexpectedEOF) {
+				break
+			}
 			return nil, err
+		}
+		if n < 0 || n > int64(reader.Len()) {
+			break
 		}
 
 		// data body
